@@ -301,7 +301,56 @@ pub fn c20(opts: &Opts, out: &mut Out) {
         report(out, "drop:witness", &key, &hits, freed, &mut total_freed);
         classes.insert((n, m, t, false));
     }
+    // owning objects overwritten in place (`clone_from`, also reached through `Vec::clone_from` / `clone_from_slice` on
+    // a witness's public opening list): the block that held the old blinding factors is given up during the call
+    for (dst_len, src_len) in [(1usize, 6usize), (2, 3), (3, 3), (6, 1), (1, 2)] {
+        let r_dst: Vec<Vec<Scalar>> = (0..2).map(|_| (0..dst_len).map(|_| Scalar::random(&mut rng)).collect()).collect();
+        let r_src: Vec<Vec<Scalar>> = (0..3).map(|_| (0..src_len).map(|_| Scalar::random(&mut rng)).collect()).collect();
+        let reg = || {
+            alloc::clear();
+            for r in r_dst.iter().chain(r_src.iter()) {
+                for s in r {
+                    alloc::register(s.as_bytes(), 0);
+                }
+            }
+        };
+        let key = format!("overwritten in place: {} blinding factors replaced by {}", dst_len, src_len);
+        // one opening
+        let mut dst = CommitmentOpening::new(5, r_dst[0].clone());
+        let src = CommitmentOpening::new(6, r_src[0].clone());
+        reg();
+        alloc::arm();
+        dst.clone_from(&src);
+        let (hits, freed) = alloc::disarm();
+        report(out, "clone_from:opening", &key, &hits, freed, &mut total_freed);
+        alloc::arm();
+        drop(dst);
+        drop(src);
+        let (hits, freed) = alloc::disarm();
+        report(out, "drop:opening", &key, &hits, freed, &mut total_freed);
+        // a witness, as a whole and through its public opening list
+        for via in ["witness", "openings", "slice"] {
+            let mk = |rs: &[Vec<Scalar>]| RangeWitness::init(rs.iter().enumerate().map(|(j, r)| CommitmentOpening::new(j as u64, r.clone())).collect()).unwrap();
+            let mut wd = mk(&r_dst[..2]);
+            let ws = mk(if via == "slice" { &r_src[..2] } else { &r_src[..1] });
+            reg();
+            alloc::arm();
+            match via {
+                "witness" => wd.clone_from(&ws),
+                "openings" => wd.openings.clone_from(&ws.openings),
+                _ => wd.openings.clone_from_slice(&ws.openings),
+            }
+            let (hits, freed) = alloc::disarm();
+            report(out, &format!("clone_from:{}", via), &key, &hits, freed, &mut total_freed);
+            alloc::arm();
+            drop(wd);
+            drop(ws);
+            let (hits, freed) = alloc::disarm();
+            report(out, "drop:witness", &key, &hits, freed, &mut total_freed);
+        }
+        classes.insert((dst_len, src_len, 70, false));
+    }
     out.stat("blocks_released_while_armed", total_freed);
     out.stat("distinct_classes", classes.len() * 8);
-    out.case("operations scanned: prove (seeded/unseeded), verify in 3 modes, drop of returned masks, witness (+clone), opening (+clone), mask, failing witness constructor; raw bytes of a statement after drop_in_place; secrets: every blinding scalar, seed, recovered mask (32 bytes), 64-bit values with the top bit set (8 bytes)".into());
+    out.case("operations scanned: prove (seeded/unseeded), verify in 3 modes, drop of returned masks, witness (+clone), opening (+clone), mask, failing witness constructor, clone_from on an opening / a witness / its opening list; raw bytes of a statement after drop_in_place; secrets: every blinding scalar, seed, recovered mask (32 bytes), 64-bit values with the top bit set (8 bytes)".into());
 }
